@@ -310,7 +310,7 @@ class ObjectTemplate(base.HyperValue, utils.Formattable):
     children = []
     def _encode(
         path: utils.KeyPath, template_value: Any, input_value: Any
-    ) -> Any:
+    ) -> None:
       """Encode input value according to template value."""
       if (pg_typing.MISSING_VALUE == input_value
           and pg_typing.MISSING_VALUE != template_value):
@@ -348,19 +348,37 @@ class ObjectTemplate(base.HyperValue, utils.Formattable):
               f'TemplateOnlyKeys={template_keys - value_keys}, '
               f'InputOnlyKeys={value_keys - template_keys})')
         for key in template_value.sym_keys():
-          utils.merge_tree(
+          _encode(
+              utils.KeyPath(key, path),
               template_value.sym_getattr(key),
               input_value.sym_getattr(key),
-              _encode,
-              root_path=utils.KeyPath(key, path),
           )
-      elif isinstance(template_value, symbolic.Dict):
-        # Do nothing since merge will iterate all elements in dict and list.
+      elif isinstance(template_value, dict):
+        # NOTE: dict and list are matched here (in template order) instead of
+        # through `utils.merge_tree`, which treats a dict input as a patch to
+        # a list template.
         if not isinstance(input_value, dict):
           raise ValueError(
               f'Unmatched dict between template value and input '
               f'value. (Path=\'{path}\', Template={template_value!r}, '
               f'Input={input_value!r})')
+        template_items = dict(
+            template_value.sym_items()
+            if isinstance(template_value, symbolic.Dict)
+            else template_value.items())
+        input_items = dict(
+            input_value.sym_items()
+            if isinstance(input_value, symbolic.Dict)
+            else input_value.items())
+        for key, template_item in template_items.items():
+          _encode(
+              utils.KeyPath(key, path),
+              template_item,
+              input_items.pop(key, pg_typing.MISSING_VALUE),
+          )
+        for key, input_item in input_items.items():
+          _encode(
+              utils.KeyPath(key, path), pg_typing.MISSING_VALUE, input_item)
       elif isinstance(template_value, symbolic.List):
         if (not isinstance(input_value, list)
             or len(input_value) != len(template_value)):
@@ -369,12 +387,7 @@ class ObjectTemplate(base.HyperValue, utils.Formattable):
               f'value. (Path=\'{path}\', Template={template_value!r}, '
               f'Input={input_value!r})')
         for i, template_item in enumerate(template_value):
-          utils.merge_tree(
-              template_item,
-              input_value[i],
-              _encode,
-              root_path=utils.KeyPath(i, path),
-          )
+          _encode(utils.KeyPath(i, path), template_item, input_value[i])
       else:
         if template_value != input_value:
           raise ValueError(
@@ -383,9 +396,8 @@ class ObjectTemplate(base.HyperValue, utils.Formattable):
               f'Template={utils.quote_if_str(template_value)}, '
               f'Input={utils.quote_if_str(input_value)})'
           )
-      return template_value
 
-    utils.merge_tree(self._value, value, _encode, root_path=self._root_path)
+    _encode(self._root_path, self._value, value)
     return geno.DNA(None, children)
 
   def try_encode(self, value: Any) -> Tuple[bool, geno.DNA]:
